@@ -22,8 +22,9 @@ MANIFEST = {
             "peer tips / random peer sets and on random responder chains (cache sizes 1..515, removed blocks, heights near 2^32, "
             "malformed requests); every implementation answer is also checked against the declarative oracle.",
     "note": "Three genuine defects repaired in /repo (most-frequent-ID loop never updated max; uint32 overflow of height+103 in the "
-            "GetBlocksFromID handler; fast-sync restore overwrote the saved original blocks). Convergence is proved on the model only; it is tied to the code through the handler and "
-            "peer-selection correspondence, not by running two nodes. Trusted: Coq kernel + vm_compute, fidelity of the hand "
+            "GetBlocksFromID handler; fast-sync restore overwrote the saved original blocks). The convergence model is tied to fast_sync.go / block_sync.go / download.go by "
+            "running the real Syncer of one node against a scripted peer over loopback libp2p (honest, truncated, corrupted, lying "
+            "about the common block) and comparing chain, ban, temp blocks and outcome with Sync.Converge. Trusted: Coq kernel + vm_compute, fidelity of the hand "
             "models as sampled, Go harness, Python glue.",
 }
 IMPORTS = "From LE Require Import Sync.PeerSelect Sync.Handlers Corr.C19."
@@ -237,7 +238,9 @@ def run(ck):
                       "sets of up to 12 peers with skewed ID frequencies and uint32 extremes; handlers: random responder chains "
                       "(genesis height 0 / small / within 260 of 2^32, length 0..120 around the 103 cap, removed temp blocks, block "
                       "cache 1..515) with well-formed and malformed requests; helpers: exhaustive small block + random/edge uint32. "
-                      "Distinct non-trivial: peer sets whose top group holds different IDs (by multiset); handler requests by "
+                      "two-node sync: fixed scenarios + random (validators 2/4, prefix 0..13, own fork 0..4, peer fork up to 19, finality on/off, "
+                      "common-block answer honest/none/foreign/below-finalized, corrupted block (processing-invalid or statelessly invalid) at any "
+                      "position, stream error after k blocks). Distinct non-trivial: peer sets whose top group holds different IDs (by multiset); handler requests by "
                       "(kind, malformed variant, answer size, error/nil, cache size, near-2^32, removed blocks); helper calls by "
                       "(function, output length, extreme arguments)")
     ck.cov["exhaustive"] = True
@@ -247,8 +250,9 @@ def run(ck):
         "block IDs are compared with bytes.Equal / used as map keys; the models use injective integer codes",
         "blockchain.DataAccess presents one chain (height -> ID) whether served from cache or DB (sampled with cache sizes 1..515; "
         "removing more blocks than the cache holds leaves Chain.LastBlock() nil and is outside the handler model)",
-        "convergence theorems are about the model of block_sync.go / fast_sync.go over abstract chains with the peer's answers "
-        "given by the handler model (honest peer) or arbitrary (faulty peer); the two state machines are not run in-process",
+        "two-node sync runs use one peer (the concurrent collection of node infos from several peers is C20's subject) and forks "
+        "of at most ~20 blocks; 'byte-identical' restore is up to the finalized-height key and the state diffs pruned by finality, "
+        "which blocks applied and removed again may legitimately advance",
     ]
     if ck.tier == "thorough":
         ck.coqchk(["LE.Properties.C19"])
